@@ -7,19 +7,32 @@ package database
 // groupcache lru and singleflight, getCheckpointFromDB, calcCheckpointKey, MemDB.
 
 //verif:property C21
-//verif:bound 2 block headers (arbitrary height below 2^32, timestamp; 0..2 sup links each) with one checkpoint each (arbitrary status and timestamp); sequences of exactly N operations (quick N = 3, thorough N = 4 and, with 1 sup link, 5), each one of: read checkpoint A, read checkpoint B, read header A, save a new version of checkpoint A (arbitrary status / timestamp)
-//verif:assume headers are immutable and served by a harness fill function that returns a fresh copy per call (as GetBlockHeader's UnmarshalText does); the checkpoint fill function is the real getCheckpointFromDB on a real MemDB
-//verif:assume solver side: json.Marshal / json.Unmarshal of state.Checkpoint are a handle table that keeps exactly the persisted fields (Parent and SupLinks carry json:"-"); bc.Hash.String (protobuf text) and hex.EncodeToString (used only to form cache keys) are injective byte encodings; block header hashes are an uninterpreted collision-free function. The native replay uses the real ones
-//verif:outside singleflight under real concurrency, LRU eviction (capacities 256..2048 are not reached), block transactions / height index / main-chain hash caches, SaveBlockHeader / SaveChainStatus invalidation, LevelDB
+//verif:bound VerifC21Checkpoints: 2 block headers (arbitrary height below 2^32, timestamp; 0..2 sup links each) with one checkpoint each (arbitrary status and timestamp); sequences of exactly N operations (quick N = 3, thorough N = 4 and, with 1 sup link, 5), each one of: read checkpoint A, read checkpoint B, read header A, save a new version of checkpoint A (arbitrary status / timestamp); headers served by a harness fill function
+//verif:bound VerifC21Headers (real Store from NewStore on a MemDB): one block header (height below 2^32, timestamp below 2^63) whose unhashed part (2-byte witness, 1 or 2 sup links with arbitrary source heights below 2^63) is re-saved with arbitrary new content of the same length, plus its checkpoint; every sequence of N operations (quick N = 3, and 4 with 1 sup link; thorough N = 4 with 2 sup links, 5 with 1) from {GetBlockHeader, SaveBlockHeader of a new version, GetCheckpoint, SaveCheckpoints of a new version}
+//verif:bound VerifC21MainChain (real Store): two alternative chains of 2 headers at heights 1 and 2 with arbitrary timestamps; every sequence of N operations (quick N = 3, 4; thorough 5, 6) from {GetMainChainHash(1), GetMainChainHash(2), SaveChainStatus switching to the other chain with both headers, listed ascending or descending}
+//verif:assume VerifC21Checkpoints only: headers are immutable and served by a harness fill function that returns a fresh copy per call; the checkpoint fill function is the real getCheckpointFromDB on a real MemDB. The other two functions use the real fill functions (GetBlockHeader, GetMainChainHash, getCheckpointFromDB)
+//verif:assume solver side: json.Marshal / json.Unmarshal of state.Checkpoint are a handle table that keeps exactly the persisted fields (Parent and SupLinks carry json:"-"), json of the chain status record is an opaque constant; BlockHeader.MarshalText / UnmarshalText are a lossless handle table that builds fresh objects on every decode (the wire round trip is property C04); bc.Hash.MarshalText / UnmarshalText carry the 32 raw bytes; bc.Hash.String (protobuf text) and hex.EncodeToString (used only to form cache keys) are injective byte encodings; block header hashes are an uninterpreted collision-free function. The native replay uses the real ones
+//verif:outside singleflight under real concurrency, LRU eviction (capacities 256..2048 are not reached), block transactions / height index caches and SaveBlock, the utxo / contract part of SaveChainStatus (empty views here), re-saving a header with a different number of sup links, LevelDB
 //verif:override encoding/json.Marshal -> verifC21Marshal
 //verif:override encoding/json.Unmarshal -> verifC21Unmarshal
 //verif:override (*github.com/bytom/bytom/protocol/bc.Hash).String -> verifC21HashString
 //verif:override encoding/hex.EncodeToString -> verifC21Hex
+//verif:override (*github.com/bytom/bytom/protocol/bc/types.BlockHeader).MarshalText -> verifC21HeaderMarshal
+//verif:override (*github.com/bytom/bytom/protocol/bc/types.BlockHeader).UnmarshalText -> verifC21HeaderUnmarshal
+//verif:override (github.com/bytom/bytom/protocol/bc.Hash).MarshalText -> verifC21HashMarshal
+//verif:override (*github.com/bytom/bytom/protocol/bc.Hash).UnmarshalText -> verifC21HashUnmarshal
 //verif:obligation fn=VerifC21Checkpoints args=3,1 validate=10 secs=1800
 //verif:obligation fn=VerifC21Checkpoints args=3,0;3,2 secs=1800
 //verif:obligation fn=VerifC21Checkpoints args=4,0;4,1;4,2;5,1 tier=thorough secs=3000
+//verif:obligation fn=VerifC21Headers args=3,1 validate=40 secs=1800
+//verif:obligation fn=VerifC21Headers args=3,2;4,1 secs=1800
+//verif:obligation fn=VerifC21Headers args=4,2;5,1 tier=thorough secs=3000
+//verif:obligation fn=VerifC21MainChain args=3 validate=20 secs=1800
+//verif:obligation fn=VerifC21MainChain args=4 secs=1800
+//verif:obligation fn=VerifC21MainChain args=5;6 tier=thorough secs=3000
 
 import (
+	"bytes"
 	"errors"
 
 	dbm "github.com/bytom/bytom/database/leveldb"
@@ -31,6 +44,9 @@ import (
 var verifC21Table []state.Checkpoint
 
 func verifC21Marshal(v interface{}) ([]byte, error) {
+	if _, isStatus := v.(state.BlockStoreState); isStatus {
+		return []byte{0xc3}, nil // chain status record: written by SaveChainStatus, not read here
+	}
 	cp, ok := v.(*state.Checkpoint)
 	if !ok {
 		panic("verif: json.Marshal stub: unexpected type")
@@ -59,6 +75,47 @@ func verifC21HashString(h *bc.Hash) string { return string(h.Bytes()) }
 
 // cache keys only need an injective text form of the database key
 func verifC21Hex(b []byte) string { return string(b) }
+
+// block header text form (solver side): a handle table with value semantics,
+// every decode builds fresh objects as the real UnmarshalText does
+var verifC21HeaderTable []types.BlockHeader
+
+func verifC21CloneHeader(bh *types.BlockHeader) types.BlockHeader {
+	c := *bh
+	c.BlockWitness = append(types.BlockWitness(nil), bh.BlockWitness...)
+	c.SupLinks = nil
+	for _, l := range bh.SupLinks {
+		lc := *l
+		c.SupLinks = append(c.SupLinks, &lc)
+	}
+	return c
+}
+
+func verifC21HeaderMarshal(bh *types.BlockHeader) ([]byte, error) {
+	verifC21HeaderTable = append(verifC21HeaderTable, verifC21CloneHeader(bh))
+	return []byte{0xc4, byte(len(verifC21HeaderTable) - 1)}, nil
+}
+
+func verifC21HeaderUnmarshal(bh *types.BlockHeader, text []byte) error {
+	if len(text) != 2 || text[0] != 0xc4 {
+		return errors.New("verif: not a header handle")
+	}
+	*bh = verifC21CloneHeader(&verifC21HeaderTable[int(text[1])])
+	return nil
+}
+
+// hash text form (solver side): the 32 raw bytes instead of 64 hex digits
+func verifC21HashMarshal(h bc.Hash) ([]byte, error) { return h.Bytes(), nil }
+
+func verifC21HashUnmarshal(h *bc.Hash, v []byte) error {
+	if len(v) != 32 {
+		return errors.New("verif: bad hash length")
+	}
+	var b [32]byte
+	copy(b[:], v)
+	*h = bc.NewHash(b)
+	return nil
+}
 
 type verifC21Node struct {
 	header *types.BlockHeader
@@ -148,4 +205,162 @@ func VerifC21Checkpoints(nOps int, nSup int) {
 		}
 	}
 	verifObserveU64("headerFills", uint64(headerFills))
+}
+
+// ---- real store paths: SaveBlockHeader, SaveChainStatus ---------------------
+
+// the fields of a header that are not part of its hash
+func verifC21Unhashed(bh *types.BlockHeader, nSup int, tag uint64) {
+	bh.BlockWitness = types.BlockWitness(verifBytesN("witness", 2))
+	bh.SupLinks = nil
+	for k := 0; k < nSup; k++ {
+		sh := verifU64("sup.height")
+		verifAssume(sh < 1<<63) // the wire format carries 63-bit integers
+		bh.SupLinks = append(bh.SupLinks, &types.SupLink{SourceHeight: sh, SourceHash: bc.Hash{V0: tag, V1: uint64(k)}})
+	}
+}
+
+func verifC21SameLinks(got, want types.SupLinks, countLabel, contentLabel string) {
+	verifAssert(len(got) == len(want), countLabel)
+	if len(got) != len(want) {
+		return
+	}
+	for i := range got {
+		verifAssert(got[i].SourceHeight == want[i].SourceHeight, contentLabel)
+		verifAssert(got[i].SourceHash == want[i].SourceHash, contentLabel)
+	}
+}
+
+// VerifC21Headers: one block header (arbitrary height and timestamp) whose
+// unhashed part (witness, nSup sup links) is re-saved with arbitrary new
+// content, and its checkpoint; every sequence of nOps operations from {read
+// header, re-save header, read checkpoint, save new checkpoint version}
+// through the real Store built by NewStore on a MemDB.
+func VerifC21Headers(nOps int, nSup int) {
+	verifC21Table, verifC21HeaderTable = nil, nil
+	db := dbm.NewMemDB()
+	s := NewStore(db)
+
+	base := types.BlockHeader{Version: 1, Height: verifU64("height"), Timestamp: verifU64("timestamp")}
+	verifAssume(base.Height < 1<<32 && base.Timestamp < 1<<63)
+	version := uint64(0)
+	saveHeader := func() bc.Hash {
+		version++
+		h := base
+		verifC21Unhashed(&h, nSup, version)
+		if err := s.SaveBlockHeader(&h); err != nil {
+			panic("verif: SaveBlockHeader failed")
+		}
+		return h.Hash()
+	}
+	hash := saveHeader()
+	saveCheckpoint := func() {
+		cp := &state.Checkpoint{Height: base.Height, Hash: hash, Timestamp: verifU64("cp.timestamp"), Status: state.CheckpointStatus(verifU8("cp.status"))}
+		if err := s.SaveCheckpoints([]*state.Checkpoint{cp}); err != nil {
+			panic("verif: SaveCheckpoints failed")
+		}
+	}
+	saveCheckpoint()
+
+	for op := 0; op < nOps; op++ {
+		switch verifChoice("op", 4) {
+		case 0:
+			got, err := s.GetBlockHeader(&hash)
+			verifAssert(err == nil, "header-read-succeeds")
+			if err != nil {
+				return
+			}
+			fresh, ferr := GetBlockHeader(db, &hash)
+			if ferr != nil {
+				panic("verif: fresh header read failed")
+			}
+			verifObserveU64("headerLinks", uint64(len(got.SupLinks)))
+			verifObserveBytes("headerWitness", got.BlockWitness)
+			verifAssert(got.Version == fresh.Version, "header-read-equals-fresh")
+			verifAssert(got.Height == fresh.Height, "header-read-equals-fresh")
+			verifAssert(got.Timestamp == fresh.Timestamp, "header-read-equals-fresh")
+			verifAssert(bytes.Equal(got.BlockWitness, fresh.BlockWitness), "header-read-equals-fresh-witness")
+			verifC21SameLinks(got.SupLinks, fresh.SupLinks, "header-read-equals-fresh-suplinks", "header-read-equals-fresh-suplink-content")
+			verifReach("VerifC21Headers:header-read")
+		case 1:
+			again := saveHeader()
+			verifAssert(again == hash, "harness-resaved-header-has-the-same-hash")
+			verifReach("VerifC21Headers:header-saved")
+		case 2:
+			got, err := s.GetCheckpoint(&hash)
+			verifAssert(err == nil, "checkpoint-read-succeeds")
+			if err != nil {
+				return
+			}
+			fresh, ferr := getCheckpointFromDB(db, calcCheckpointKey(base.Height, &hash))
+			freshHeader, herr := GetBlockHeader(db, &hash)
+			if ferr != nil || herr != nil {
+				panic("verif: fresh read failed")
+			}
+			verifObserveU64("status", uint64(got.Status))
+			verifObserveU64("checkpointLinks", uint64(len(got.SupLinks)))
+			verifAssert(got.Height == fresh.Height, "checkpoint-read-equals-fresh-identity")
+			verifAssert(got.Hash == fresh.Hash, "checkpoint-read-equals-fresh-identity")
+			verifAssert(got.Timestamp == fresh.Timestamp, "checkpoint-read-equals-fresh-timestamp")
+			verifAssert(got.Status == fresh.Status, "checkpoint-read-equals-fresh-status")
+			verifC21SameLinks(got.SupLinks, freshHeader.SupLinks, "checkpoint-read-equals-fresh-suplinks", "checkpoint-read-suplink-content")
+			verifReach("VerifC21Headers:checkpoint-read")
+		case 3:
+			saveCheckpoint()
+			verifReach("VerifC21Headers:checkpoint-saved")
+		}
+	}
+}
+
+// VerifC21MainChain: main-chain index at heights 1 and 2 written by the real
+// Store.SaveChainStatus with two headers (two alternative chains with
+// arbitrary timestamps, listed in either order), read through the real
+// Store.GetMainChainHash; every sequence of nOps operations from {read height
+// 1, read height 2, switch to the other chain}.
+func VerifC21MainChain(nOps int) {
+	verifC21Table, verifC21HeaderTable = nil, nil
+	db := dbm.NewMemDB()
+	s := NewStore(db)
+
+	var chain [2][2]*types.BlockHeader
+	for c := range chain {
+		for i := range chain[c] {
+			chain[c][i] = &types.BlockHeader{Version: 1, Height: uint64(i + 1), Timestamp: verifU64("timestamp")}
+		}
+	}
+	status := func(c int) {
+		list := []*types.BlockHeader{chain[c][0], chain[c][1]}
+		if verifChoice("descending", 2) == 1 {
+			list[0], list[1] = list[1], list[0]
+		}
+		fin := chain[c][0].Hash()
+		if err := s.SaveChainStatus(chain[c][1], list, state.NewUtxoViewpoint(), state.NewContractViewpoint(), 1, &fin); err != nil {
+			panic("verif: SaveChainStatus failed")
+		}
+	}
+	cur := 0
+	status(cur)
+
+	for op := 0; op < nOps; op++ {
+		switch k := verifChoice("op", 3); k {
+		case 0, 1:
+			height := uint64(k + 1)
+			got, err := s.GetMainChainHash(height)
+			verifAssert(err == nil, "main-chain-hash-read-succeeds")
+			if err != nil {
+				return
+			}
+			fresh, ferr := GetMainChainHash(db, height)
+			if ferr != nil {
+				panic("verif: fresh main-chain read failed")
+			}
+			verifObserveBool("isCurrentChain", *got == chain[cur][k].Hash())
+			verifAssert(*got == *fresh, "main-chain-hash-read-equals-fresh")
+			verifReach("VerifC21MainChain:read")
+		case 2:
+			cur ^= 1
+			status(cur)
+			verifReach("VerifC21MainChain:status-saved")
+		}
+	}
 }
